@@ -158,6 +158,7 @@ example : typeInfoFields = GoCrypt.Gen.typeinfoIR.typeInfoFields := by decide
 example : typeInfoFields = ["Struct", "Type", "HashPrefix", "Fields", "NumReqValues"] := by decide
 example : unsupportedTypeErrorFields = ["Type", "Struct", "Field"] := by decide
 example : unsupportedValueErrorFields = ["Value", "Struct", "Field", "Str"] := by decide
-example : procNames = ["Marshal", "marshalValue", "marshal", "indirect", "isEmpty"] := by decide
+example : procNames = ["Marshal", "marshalValue", "marshal", "indirect", "isEmpty", "Unmarshal", "unmarshal", "newUnmarshalError",
+    "unmarshalIndirect"] := by decide
 
 end GoCrypt.CIR
